@@ -224,7 +224,7 @@ func c09Items(c c09Case) [][]byte {
 	guard(func() {
 		frags = newPayloaderOpt(c.Feed.PKind).Payload(uint16(c.Feed.Mtu), buildInput(c.Feed.Shape, c.Feed.Len, c.Feed.Salt))
 	})
-	if len(frags) > 12 {
+	if len(frags) > 12 && len(c.Edits) > 0 {
 		frags = frags[:12]
 	}
 	items = cloneFrags(frags)
